@@ -3,6 +3,7 @@ package props
 import (
 	"context"
 	"fmt"
+	"time"
 
 	"github.com/paulmach/osm"
 	"github.com/paulmach/osm/osmpbf"
@@ -39,7 +40,163 @@ func (f c09Filter) apply(s *osmpbf.Scanner) {
 	s.SkipNodes, s.SkipWays, s.SkipRelations = f.skipN, f.skipW, f.skipR
 }
 
+// c09Huge: offsets beyond 32 bits. The stream is virtual: a header, K identical ~16 MiB filler
+// blocks (a valid block padded with an unknown field, one node each) and a small tail.
+func c09Huge(c fw.Case) *fw.Result {
+	res := fw.NewResult()
+	r := gen.New(c.Seed, "c09huge")
+	f := pbfw.GenFile(r, pbfw.GenOpts{MinBlocks: 4, MaxBlocks: 4, MaxGroups: 1, MaxElems: 3, SmallStrings: true, OnlyKinds: []int{pbfw.KDense}})
+	for _, b := range f.Blocks {
+		b.Zlib = false
+	}
+	f.Blocks[0].PadBytes = 16 << 20
+	data, lay := f.Encode(nil)
+	head := data[:lay.Start[0]]
+	filler := data[lay.Start[0]:lay.End[0]]
+	tail := data[lay.End[0]:]
+	K := int(c.Int("fillers"))
+	v := &mon.Virtual{Parts: []mon.VPart{{Data: head, Repeat: 1}, {Data: filler, Repeat: K}, {Data: tail, Repeat: 1}}}
+	// expected: K times the objects of block 0, then blocks 1..3; block starts computed
+	var want []pbfw.Expect
+	var starts []int64
+	b0 := f.ExpectBlock(0)
+	for k := 0; k < K; k++ {
+		for _, e := range b0 {
+			e.Block = k
+			want = append(want, e)
+		}
+		starts = append(starts, int64(len(head))+int64(k)*int64(len(filler)))
+	}
+	base := int64(len(head)) + int64(K)*int64(len(filler))
+	for bi := 1; bi < len(f.Blocks); bi++ {
+		for _, e := range f.ExpectBlock(bi) {
+			e.Block = K + bi - 1
+			want = append(want, e)
+		}
+		starts = append(starts, base+(lay.Start[bi]-lay.End[0]))
+	}
+	key := "C09/huge"
+	procs := int(c.Int("procs"))
+	s := osmpbf.New(context.Background(), v.At(0), procs)
+	k := 0
+	for s.Scan() {
+		if k >= len(want) {
+			res.Violatef(key+"/extra", "more objects than the stream holds")
+			break
+		}
+		bi := want[k].Block
+		full, prev := s.FullyScannedBytes(), s.PreviousFullyScannedBytes()
+		wantPrev := int64(0)
+		if bi > 0 {
+			wantPrev = starts[bi-1]
+		}
+		if full != starts[bi] || prev != wantPrev {
+			res.Violatef(key+"/offsets", "object #%d in the block starting at byte %d (%.2f GiB): FullyScannedBytes=%d PreviousFullyScannedBytes=%d, want %d / %d", k, starts[bi], float64(starts[bi])/(1<<30), full, prev, starts[bi], wantPrev)
+			break
+		}
+		if d := pbfw.Compare(want[k], s.Object()); d != "" {
+			res.Violatef(key+"/object", "object #%d: %s", k, d)
+			break
+		}
+		k++
+	}
+	if err := s.Err(); err != nil {
+		res.Violatef(key+"/err", "scan of a valid %.2f GiB stream failed: %v", float64(v.Size())/(1<<30), err)
+	}
+	s.Close()
+	if k != len(want) && !res.Failed() {
+		res.Violatef(key+"/count", "delivered %d of %d objects", k, len(want))
+	}
+	// resume at offsets beyond 4 GiB
+	for _, bi := range []int{K - 1, K, len(starts) - 1} {
+		if res.Failed() {
+			break
+		}
+		rs := osmpbf.New(context.Background(), v.At(starts[bi]), procs)
+		var got []osm.Object
+		for rs.Scan() {
+			got = append(got, rs.Object())
+		}
+		if err := rs.Err(); err != nil {
+			res.Violatef(key+"/resume-err", "resume at byte %d failed: %v", starts[bi], err)
+		}
+		rs.Close()
+		first := 0
+		for first < len(want) && want[first].Block < bi {
+			first++
+		}
+		if d := pbfw.CompareSeq(want[first:], got); d != "" {
+			res.Violatef(key+"/resume-seq", "resume at byte %d: %s", starts[bi], d)
+		}
+		res.Add("resume_scans", 1)
+	}
+	res.Event(int64(k))
+	res.SetMax("largest_offset_observed", starts[len(starts)-1])
+	res.Eval(fmt.Sprintf("huge/procs%d", procs))
+	res.Sample = map[string]any{"stream_bytes": v.Size(), "filler_blocks": K, "filler_block_bytes": len(filler), "procs": procs, "last_block_start": starts[len(starts)-1]}
+	return res
+}
+
+// c09SameHandle: the idiom Close -> Seek(FullyScannedBytes) -> new scanner on the SAME handle
+// (one shared file position), with a slow medium.
+func c09SameHandle(c fw.Case) *fw.Result {
+	res := fw.NewResult()
+	r := gen.New(c.Seed, "c09same")
+	nb := r.Range(8, 14)
+	f := pbfw.GenFile(r, pbfw.GenOpts{MinBlocks: nb, MaxBlocks: nb, MaxGroups: 1, MaxElems: 4, SmallStrings: true, OnlyKinds: []int{pbfw.KDense}})
+	data, lay := f.Encode(nil)
+	want := f.ExpectAll()
+	procs := int(c.Int("procs"))
+	key := "C09/same-handle"
+	for _, k := range []int{1, 2, len(want) / 3, len(want) / 2} {
+		if k < 1 || k >= len(want) {
+			continue
+		}
+		h := &mon.SeekReader{Data: data, Delay: time.Duration(c.Int("delay_us")) * time.Microsecond}
+		s := osmpbf.New(context.Background(), h, procs)
+		n := 0
+		for n < k && s.Scan() {
+			n++
+		}
+		s.Close()
+		off := s.FullyScannedBytes()
+		bi := want[k-1].Block
+		if off != lay.Start[bi] {
+			res.Violatef(key+"/offset", "after %d objects FullyScannedBytes=%d, want %d", k, off, lay.Start[bi])
+			continue
+		}
+		h.Seek(off, 0)
+		rs := osmpbf.New(context.Background(), h, procs)
+		var got []osm.Object
+		for rs.Scan() {
+			got = append(got, rs.Object())
+		}
+		err := rs.Err()
+		rs.Close()
+		first := 0
+		for first < len(want) && want[first].Block < bi {
+			first++
+		}
+		if err != nil {
+			res.Violatef(key+"/resume-err", "Scan×%d, Close, Seek(%d), new scanner on the same handle: %v", k, off, err)
+		} else if d := pbfw.CompareSeq(want[first:], got); d != "" {
+			res.Violatef(key+"/resume-seq", "Scan×%d, Close, Seek(%d), new scanner on the same handle: %s", k, off, d)
+		}
+		res.Event(int64(len(got)))
+		res.Add("same_handle_resumes", 1)
+	}
+	res.Eval(fmt.Sprintf("samehandle/procs%d/delay%d", procs, c.Int("delay_us")))
+	res.Sample = map[string]any{"blocks": nb, "objects": len(want), "procs": procs, "delay_us": c.Int("delay_us")}
+	return res
+}
+
 func c09Exec(c fw.Case) *fw.Result {
+	switch c.Kind {
+	case "huge":
+		return c09Huge(c)
+	case "samehandle":
+		return c09SameHandle(c)
+	}
 	res := fw.NewResult()
 	r := gen.New(c.Seed, "c09")
 	nb := r.Range(4, 15)
@@ -274,6 +431,17 @@ func c09Cases(tier string, seed uint64) []fw.Case {
 				"procs": procs[i%4], "skipmask": masks[(i/4)%8], "singlekind": int64(b2i(i%3 != 0)), "noheader": int64(b2i(i%13 == 12))}})
 		}
 	}
+	nsame := 12
+	nhuge := 1
+	if tier == "thorough" {
+		nsame, nhuge = 120, 4
+	}
+	for i := 0; i < nsame; i++ {
+		cs = append(cs, fw.Case{Kind: "samehandle", Seed: gen.Sub(seed, "c09same", i), P: map[string]int64{"procs": procs[i%4], "delay_us": []int64{1500, 300, 0}[i%3]}})
+	}
+	for i := 0; i < nhuge; i++ {
+		cs = append(cs, fw.Case{Kind: "huge", Seed: gen.Sub(seed, "c09huge", i), P: map[string]int64{"procs": []int64{1, 2}[i%2], "fillers": 262}})
+	}
 	return fw.Number(cs)
 }
 
@@ -281,7 +449,7 @@ func init() {
 	fw.Register(&fw.Prop{
 		ID:    "C09",
 		Level: "fault_enumeration",
-		Rule: "PRNG files of 4-15 blocks (<=200 objects); every stop position k=0..N of each file is observed (offsets read after every Scan), a resume scan is run for every distinct reported offset and for the previous offset, plus real Scan×k→Close→resume histories for k in {0,1,N/2,N-1,N}; skip masks that create fully empty blocks; decoders {1,2,4,16}. " +
+		Rule: "PRNG files of 4-15 blocks (<=200 objects); every stop position k=0..N of each file is observed (offsets read after every Scan), a resume scan is run for every distinct reported offset and for the previous offset, plus real Scan×k→Close→resume histories for k in {0,1,N/2,N-1,N}; skip masks that create fully empty blocks; decoders {1,2,4,16}; Close -> Seek -> new scanner on one shared-position handle with a slow medium; a virtual 4.1 GiB stream (offsets beyond 32 bits). " +
 			"Signature = (decoders, skip mask, file has empty blocks, header present, block-count class).",
 		Assumptions: []string{
 			"after the terminal Scan()==false trailing fully-skipped blocks may have advanced the offset, so offset equalities are asserted only after a Scan that returned true (and for k=0); for the terminal position only the resume consequence is asserted",
